@@ -16,17 +16,19 @@ import (
 // loginTasks: the client's own use of the hints. A simulated KDC answers the first AS request with PREAUTH_REQUIRED and both
 // ETYPE-INFO2 (the client's etype, a non-default salt and iteration count) and an ETYPE-INFO that names another etype, in either
 // order. The pre-authenticated request must carry a PA-ENC-TIMESTAMP that decrypts under the key RFC 4120 5.2.7.5 selects
-// (the KDC records why it does not), and the login must succeed.
+// (the KDC records why it does not), and the login must succeed. A third variant lets the client pre-authenticate before it is
+// asked (client.AssumePreAuthentication): its first guess (default salt) is refused with PREAUTH_FAILED and the same hints.
 func loginTasks(r *vh.Run, add func(func())) {
 	const realm = "TEST.GOKRB5"
 	for _, et := range kcrypto.Etypes {
 		for _, policy := range []string{"info2,info-other-etype", "info-other-etype,info2", "info2", "info+pwsalt"} {
-			for _, custom := range []bool{false, true} {
-				et, policy, custom := et, policy, custom
+			for _, custom := range []string{"default", "custom", "custom+client-assumes-pre-authentication"} {
+				et, policy, assume := et, policy, custom == "custom+client-assumes-pre-authentication"
+				custom := custom != "default"
 				if custom && policy == "info+pwsalt" && kcrypto.DefaultIter(et) != 0 {
 					// ETYPE-INFO cannot convey an iteration count: only the salt is non-default then
 				}
-				ck := fmt.Sprintf("login/et=%d/%s/custom=%v", et, policy, custom)
+				ck := fmt.Sprintf("login/et=%d/%s/custom=%v/assume=%v", et, policy, custom, assume)
 				if !r.Mine(ck) {
 					continue
 				}
@@ -65,7 +67,7 @@ func loginTasks(r *vh.Run, add func(func())) {
 						return
 					}
 					r.Eval(ck, true)
-					cl := client.NewWithPassword("carol", realm, pw, cfg, client.DisablePAFXFAST(true))
+					cl := client.NewWithPassword("carol", realm, pw, cfg, client.DisablePAFXFAST(true), client.AssumePreAuthentication(assume))
 					var lerr error
 					pnc, pv, pwh := vh.Guard(func() {
 						defer cl.Destroy()
@@ -73,15 +75,17 @@ func loginTasks(r *vh.Run, add func(func())) {
 					})
 					var why []string
 					preauthed := 0
-					for _, rq := range k.Requests() {
-						if rq.PreauthErr != "" {
+					rqs := k.Requests()
+					for i, rq := range rqs {
+						if rq.PreauthErr != "" && !(assume && i == 0) {
+							// (a client that pre-authenticates before it was told the salt may guess wrong once)
 							why = append(why, rq.PreauthErr)
 						}
 						if rq.PreauthTS != nil {
 							preauthed++
 						}
 					}
-					d := map[string]any{"case": ck, "etype": et, "hints": policy, "custom_salt_and_iterations": custom, "login_err": fmt.Sprint(lerr), "kdc_preauth_findings": why, "requests": len(k.Requests())}
+					d := map[string]any{"case": ck, "etype": et, "hints": policy, "custom_salt_and_iterations": custom, "client_assumes_pre_authentication": assume, "login_err": fmt.Sprint(lerr), "kdc_preauth_findings": why, "requests": len(k.Requests())}
 					switch {
 					case pnc:
 						r.Violation(fmt.Sprintf("C08|login|panic|%s|%s", pwh, vh.PanicClass(pv)), "client panicked: "+pv, d)
